@@ -218,6 +218,10 @@ def canon_rel(term, truth=True):
         truth = not truth
     if term[0] == "bin" and term[1] in NEG:
         rel, a, b = term[1], term[2], term[3]
+    elif term[0] == "call" and term[1].endswith("::contains") and ("ops::Range" in term[1] or "RangeBounds" in term[1]) and len(term[3]) == 2 and \
+            term[3][0][0] == "agg" and term[3][0][1].endswith("ops::Range") and dict(term[3][0][3]).get("start") == ("const", "usize", 0):
+        # `(0..n).contains(&i)` on unsigned indices is `i < n`
+        rel, a, b = "Lt", term[3][1], dict(term[3][0][3]).get("end")
     elif term[0] == "call" and term[1].startswith("std::cmp::Partial") and len(term[3]) == 2:
         m = term[1].rsplit("::", 1)[1]
         rel = {"eq": "Eq", "ne": "Ne", "lt": "Lt", "le": "Le", "gt": "Gt", "ge": "Ge"}.get(m)
@@ -802,3 +806,67 @@ def stable_ancestors(F, k, cone_keys):
     return out
 
 
+
+
+# --------------------------------------------------------------------------- #
+# calling contexts of private helpers (context-sensitive analysis without merging control-flow graphs)
+# --------------------------------------------------------------------------- #
+def helper_contexts(F, ev):
+    """{private helper key: [env]}: the environments (arguments bound to the caller's terms, `.parent` chain up to a
+    function with a stable name) in which each private helper runs, collected by effects.iteration_effects(enters=True)
+    from every function that has a stable name or no caller"""
+    cache = F.__dict__.setdefault("_helper_ctx", {})
+    ck = frozenset(ev.opaque)
+    if ck in cache:
+        return cache[ck]
+    from effects import iteration_effects
+    ctx = {}
+    for b in F.bodies.values():
+        if b.kind == "Closure":
+            continue
+        if stable_name(b) or not (local_callers(F).get(b.key, set()) - {b.key}):
+            try:
+                for e in iteration_effects(ev, Env(b), enters=True):
+                    if e.kind == "enter" and e.env.depth > 0 and e.body.kind != "Closure" and not stable_name(F.bodies.get(e.body.key, e.body)):
+                        ctx.setdefault(e.body.key, []).append(e.env)
+            except RecursionError:
+                pass
+    cache[ck] = ctx
+    return ctx
+
+
+def context_levels(env, block):
+    """[(body, env, block)] from the given site up the inlining chain: the site itself, then the call site in each caller"""
+    out = []
+    x, blk = env, block
+    while x is not None:
+        out.append((x.body, x, blk))
+        par = getattr(x, "parent", None)
+        if par is None or not x.path:
+            break
+        blk = x.path[-1][1]
+        x = par
+    return out
+
+
+def context_root(F, env):
+    x = env
+    while getattr(x, "parent", None) is not None:
+        x = x.parent
+    return F.bodies.get(x.body.key, x.body)
+
+
+def context_relations(ev, env, block):
+    """canonical relations that hold at `block` of this inlined instance: its own dominating guards plus those that
+    dominate every call on the chain that leads to it"""
+    rels, raw = [], []
+    for bd, x, blk in context_levels(env, block):
+        if blk >= len(bd.blocks) or blk not in bd.live_blocks():
+            continue
+        try:
+            r, w = Guards(ev, bd, x).relations_at(blk)
+        except RecursionError:
+            continue
+        rels.extend(r)
+        raw.extend(w)
+    return rels, raw
